@@ -1020,6 +1020,17 @@ pub fn run(out: &mut Out, tier: &str, seed: u64, prop: &str) {
                         if env.eval(&m) != (member != neg) {
                             out.oracle_fail("C11", "extra ==/!= does not mean normalized-name membership", serde_json::json!({"extra": e, "neg": neg, "active": active}));
                         }
+                        // … with the active extras read through serde from their raw spellings (a name is the same name however it
+                        // was obtained: parsed, constructed or deserialized)
+                        if let Ok(de) = serde_json::from_value::<Vec<ExtraName>>(serde_json::json!(active)) {
+                            if m.evaluate(&env.env(), &de) != (member != neg) || m.evaluate_extras(&de) != (member != neg) {
+                                out.oracle_fail("C11", "extra ==/!= does not match an active extra that was deserialized from its raw spelling", serde_json::json!({"extra": e, "neg": neg, "active": active}));
+                            }
+                            let via_marker = m.clone().simplify_extras(&de);
+                            if member && via_marker != (if neg { MarkerTree::FALSE } else { MarkerTree::TRUE }) {
+                                out.oracle_fail("C11", "simplify_extras with a deserialized active extra leaves the atom in place", serde_json::json!({"extra": e, "neg": neg, "active": active}));
+                            }
+                        }
                         // … through every entry point that takes extras (an atom on `extra` alone depends on nothing else)
                         let ex = env.extras();
                         let set: std::collections::HashSet<ExtraName> = ex.iter().cloned().collect();
